@@ -286,7 +286,8 @@ def mar (env : Env) (L : Leaves) : Nat → Ty → Val → R Val
     | .union ms =>
       match nullable ms, v with
       | true, .none => .ok .none
-      | _, _ => firstOk (ms.map (mar env L n)) v
+      | true, _ => firstOk ((ms.filter (fun m => !m.isNone)).map (mar env L n)) v
+      | false, _ => firstOk (ms.map (mar env L n)) v
     | .cls c =>
       match env.cls c with
       | none => .error .unsupported
